@@ -127,6 +127,13 @@ def fn_probe(line):
     return p.stdout.strip()
 
 
+def has_wm_probe():
+    try:
+        return fn_probe("matwm_filter 0.0 1 -") not in ("UNKNOWN_PROBE", "")
+    except Exception:
+        return False
+
+
 class Hist:
     def __init__(self, case):
         self.case = case
@@ -385,7 +392,7 @@ class Hist:
                     first = self.k + 1
                     for i in range(op[3]):
                         self.do_store(0, i, 0, wait=False)
-                    w = self.eng.cmd("!wait_parked fw_published 4000")
+                    w = self.eng.cmd("!wait_parked fw_published 10000")
                     self.eng.cmd("!wal_drained 3000")
                     if not w.get("parked"):
                         self.notes.append("park point fw_published not reached")
@@ -404,10 +411,13 @@ class Hist:
 
 
 def run_history(case):
-    try:
-        return Hist(case).run()
-    except Exception as ex:  # harness failure: reported as a disagreement, never hidden
-        return {"line": None, "obs": "", "shows": [], "notes": [f"HARNESS-ERROR {type(ex).__name__}: {ex}"]}
+    err = None
+    for attempt in range(2):   # an engine child that does not come up on the loaded machine is retried once
+        try:
+            return Hist(case).run()
+        except Exception as ex:  # harness failure: reported as a disagreement, never hidden
+            err = f"HARNESS-ERROR {type(ex).__name__}: {ex}"
+    return {"line": None, "obs": "", "shows": [], "notes": [err]}
 
 
 def run_sides(cases, model_ok):
@@ -680,7 +690,7 @@ def cases(rng, tier):
             frames = sorted(frames, key=lambda f: (f == "-", [tuple(int(x) for x in r.split(".")[:2]) for r in f.split(",")] if f != "-" else []))
         out.append({"kind": "fn_sink", "line": "mat_sink " + "|".join(frames), "show": "MaterializedSink.append " + " | ".join(frames)})
     # WatermarkDeduplicator::filter, once hooks/C14-watermark-dedup.diff is applied and the probe renamed
-    if fn_probe("matwm_filter 0.0 1 -") not in ("UNKNOWN_PROBE", ""):
+    if has_wm_probe():
         for i in range(n_fn):
             m = (rng.below(4), rng.below(5))
             frames = []
